@@ -2,7 +2,7 @@
 // base/unixutil (TimevalFromNsec) and net/csptp (timestamps, time intervals, offset and
 // delay formulas). The floating-point functions (base/unixutil/freq.go, SystemClock.Drift)
 // are executed against Model/FreqDrift.lean (over the shared software double Model/F64.lean),
-// doubles crossing the protocol as bit patterns; their theorems are pending (notes/C18.md).
+// doubles crossing the protocol as bit patterns (theorems: Props/C18Float.lean).
 package main
 
 import (
